@@ -146,6 +146,23 @@ def check(writer, field, value, ctx=None, mode=None):
     except Exception:  # noqa
         return fails
     where = f"{writer}: record field {field} = {value!r} (converter built by {mode})"
+    ordered_before = [(r.prefix, r.uri_prefix, list(r.prefix_synonyms), list(r.uri_prefix_synonyms), r.pattern) for r in conv.records]
+    if mode == "merge-late" and writer != "epm":
+        # writing is reading: another writer ran on this converter before (in every option combination) ...
+        other = os.path.join(tmpdir(), f"{os.getpid()}.before")
+        for pre in ("jsonld", "shacl", "tsv"):
+            if pre == writer:
+                continue
+            try:
+                if pre == "jsonld":
+                    for inc_, exp_ in ((True, False), (True, True), (False, False)):
+                        curies.write_jsonld_context(conv, other, include_synonyms=inc_, expand=exp_)
+                elif pre == "shacl":
+                    curies.write_shacl(conv, other, include_synonyms=True)
+                else:
+                    curies.write_tsv(conv, other)
+            except Exception:  # noqa  (the other writer's own round trip is checked in its own case)
+                pass
     path = os.path.join(tmpdir(), f"{os.getpid()}.{writer}")
     if mode == "merge-late":
         from pathlib import Path
@@ -218,6 +235,18 @@ def check(writer, field, value, ctx=None, mode=None):
                 fails.append((f"tsv/prefix-map-differs/{field}", f"{where}: converter from the parsed TSV differs"))
         except Exception as e:  # noqa
             fails.append((f"tsv/parsed-map-rejected/{field}", f"{where}: {type(e).__name__}"))
+    ordered_after = [(r.prefix, r.uri_prefix, list(r.prefix_synonyms), list(r.uri_prefix_synonyms), r.pattern) for r in conv.records]
+    if ordered_after != ordered_before:
+        fails.append((f"{writer}/writing-changed-the-converter/{field}", f"{where}: records before {ordered_before[:2]} ..., after {ordered_after[:2]} ..."))
+    elif writer != "epm" and mode == "merge-late":
+        # ... and the extended prefix map written afterwards still reproduces every record
+        try:
+            curies.write_extended_prefix_map(conv, path)
+            back = curies.load_extended_prefix_map(path)
+            if record_set(back) != record_set(conv):
+                fails.append((f"epm/records-differ-after-other-writers/{field}", f"{where}: read back {sorted(map(repr, record_set(back)))}"))
+        except Exception as e:  # noqa
+            fails.append((f"epm/round-trip-raises-after-other-writers/{field}", f"{where}: {type(e).__name__}: {str(e)[:100]}"))
     if ctx is not None:
         ctx.count("evaluations")
         ctx.count("cases_" + writer)
